@@ -166,6 +166,138 @@ theorem from_geopolygon_align_is_alignment (p : Rat × Rat) (ps : List (Rat × R
   have := from_bbox_res_alignment (res := .xy rx ry) hs rfl v hsn h crs
   rw [this, div_mul_cancel₀ _ (ne_of_gt hprx), div_mul_cancel₀ _ (ne_of_gt hpry)]
 
+/-! ## round trips: `from_bbox` → `zoom_to(resolution=)`, `from_bbox` → `pad` -/
+
+theorem snapCeil_intCast (n : Int) : C02.snapCeil (n : Rat) C02.tolSnap = n := by
+  unfold C02.snapCeil
+  have htol : (0 : Rat) < C02.tolSnap := by unfold C02.tolSnap; rw [Rat.mkRat_eq_div]; norm_num
+  simp [Rat.floor_intCast, htol]
+
+/-- **`zoom_to(resolution=own resolution)` is the identity** on every axis-aligned geobox with at least one pixel per
+axis (either sign of either resolution component). -/
+theorem zoom_to_own_resolution (g : GeoBox) (crs : Nat) (rx ry : Rat) (hrx : rx ≠ 0) (hry : ry ≠ 0)
+    (ha : g.affine = ⟨rx, 0, g.affine.c, 0, ry, g.affine.f⟩) (hnx : 1 ≤ g.nx) (hny : 1 ≤ g.ny) :
+    C02.zoomToRes (toC02 g crs) rx ry = .ok (toC02 g crs) := by
+  have hb : g.affine.b = 0 := by rw [ha]
+  have hd : g.affine.d = 0 := by rw [ha]
+  have haa : g.affine.a = rx := by rw [ha]
+  have hee : g.affine.e = ry := by rw [ha]
+  have hnx' : (1 : Rat) ≤ g.nx := by exact_mod_cast hnx
+  have hny' : (1 : Rat) ≤ g.ny := by exact_mod_cast hny
+  -- one axis
+  have axis : ∀ (c r : Rat) (n : Int), r ≠ 0 → 1 ≤ n →
+      C02.snapGridTight (min c (c + (n : Rat) * r)) (max c (c + (n : Rat) * r)) r C02.tolSnap = .ok (c, n) := by
+    intro c r n hr hn
+    have hn' : (1 : Rat) ≤ n := by exact_mod_cast hn
+    unfold C02.snapGridTight
+    rcases lt_or_gt_of_ne hr with h | h
+    · -- r < 0
+      have hle : c + (n : Rat) * r ≤ c := by nlinarith
+      rw [min_eq_right hle, max_eq_left hle, if_neg (not_lt.mpr h.le), if_neg hr]
+      have : (c - (c + (n : Rat) * r)) / -r = (n : Rat) := by field_simp; ring
+      rw [this, snapCeil_intCast, max_eq_left hn]
+    · have hle : c ≤ c + (n : Rat) * r := by nlinarith
+      rw [min_eq_left hle, max_eq_right hle, if_pos h]
+      have : (c + (n : Rat) * r - c) / r = (n : Rat) := by field_simp; ring
+      rw [this, snapCeil_intCast, max_eq_right hn]
+  unfold C02.zoomToRes
+  rw [boundingbox_of_axis_aligned g crs hb hd]
+  simp only [GeoBox.xmin, GeoBox.xmax, GeoBox.ymin, GeoBox.ymax, haa, hee]
+  rw [axis g.affine.c rx g.nx hrx hnx, axis g.affine.f ry g.ny hry hny]
+  simp only [bind, Except.bind, pure, Except.pure, toC02, ts_eq]
+  rw [← ha]
+
+/-- **`GeoBox.from_bbox(region, resolution=r).zoom_to(resolution=r)` gives the same geobox back** (any anchor, tight
+or not): the result of the resolution-driven construction is a fixed point of re-gridding at its own resolution. -/
+theorem from_bbox_then_zoom_to_same_resolution {bb : BBox} {tight : Bool} {shape : ShapeArg} {res : ResArg}
+    {anchor : AnchorArg} {tol rx ry : Rat} {g : GeoBox} (hs : ∀ n, shape ≠ .int n) (hres : res.xy? = some (rx, ry))
+    (v : ValidRes bb rx ry tol (snapOf tight (normAnchor anchor)))
+    (h : fromBbox bb tight shape res anchor tol = .ok g) (crs : Nat) :
+    C02.zoomToRes (toC02 g crs) rx ry = .ok (toC02 g crs) := by
+  obtain ⟨g', hg', hn1, hn2⟩ := from_bbox_res_total (shape := shape) (res := res) (anchor := anchor) (tight := tight) hs hres v
+  rw [h] at hg'; cases hg'
+  obtain ⟨_, ha, he, hb, hd⟩ := from_bbox_res_pixel_size hs hres h
+  refine zoom_to_own_resolution g crs rx ry v.hrx v.hry ?_ hn1 hn2
+  cases hA : g.affine
+  simp only [hA] at ha he hb hd
+  simp [ha, he, hb, hd]
+
+/-- **`from_bbox(region, resolution=r).pad(px, py)` covers the region grown by `px`, `py` pixels** (up to `tol`):
+padding moves each edge of the bounding box outwards by exactly that many pixels. -/
+theorem from_bbox_then_pad_covers {bb : BBox} {tight : Bool} {shape : ShapeArg} {res : ResArg}
+    {anchor : AnchorArg} {tol rx ry : Rat} {g : GeoBox} (hs : ∀ n, shape ≠ .int n) (hres : res.xy? = some (rx, ry))
+    (v : ValidRes bb rx ry tol (snapOf tight (normAnchor anchor)))
+    (h : fromBbox bb tight shape res anchor tol = .ok g) (crs : Nat) (px py : Int) (hpx : 0 ≤ px) (hpy : 0 ≤ py) :
+    let B := C02.boundingbox (C02.pad (toC02 g crs) px (some py))
+    B.left ≤ bb.left - (px : Rat) * |rx| + tol * |rx| ∧ bb.right + (px : Rat) * |rx| - tol * |rx| ≤ B.right ∧
+    B.bottom ≤ bb.bottom - (py : Rat) * |ry| + tol * |ry| ∧ bb.top + (py : Rat) * |ry| - tol * |ry| ≤ B.top := by
+  obtain ⟨g', hg', hn1, hn2⟩ := from_bbox_res_total (shape := shape) (res := res) (anchor := anchor) (tight := tight) hs hres v
+  rw [h] at hg'; cases hg'
+  obtain ⟨_, ha, he, hb, hd⟩ := from_bbox_res_pixel_size hs hres h
+  have hc := from_bbox_res_covers hs hres v h
+  -- the padded geobox, in C08's vocabulary
+  let gp : GeoBox := ⟨g.ny + py * 2, g.nx + px * 2,
+    ⟨rx, 0, g.affine.c - (px : Rat) * rx, 0, ry, g.affine.f - (py : Rat) * ry⟩⟩
+  have hpad : C02.pad (toC02 g crs) px (some py) = toC02 gp crs := by
+    simp only [C02.pad, toC02, gp, Aff.mul_def, Aff.mul, Aff.translation, ha, he, hb, hd]
+    congr 1
+    simp only [Aff.mk.injEq]
+    refine ⟨by ring, by ring, by ring, by ring, by ring, by ring⟩
+  have hnx : (1 : Rat) ≤ g.nx := by exact_mod_cast hn1
+  have hny : (1 : Rat) ≤ g.ny := by exact_mod_cast hn2
+  have hpx' : (0 : Rat) ≤ px := by exact_mod_cast hpx
+  have hpy' : (0 : Rat) ≤ py := by exact_mod_cast hpy
+  simp only [hpad, boundingbox_of_axis_aligned gp crs rfl rfl]
+  simp only [GeoBox.xmin, GeoBox.xmax, GeoBox.ymin, GeoBox.ymax, ha, he] at hc
+  simp only [GeoBox.xmin, GeoBox.xmax, GeoBox.ymin, GeoBox.ymax, gp]
+  push_cast
+  obtain ⟨c1, c2, c3, c4⟩ := hc
+  refine ⟨?_, ?_, ?_, ?_⟩
+  · rcases lt_or_gt_of_ne v.hrx with hr | hr
+    · rw [abs_of_neg hr] at c1 ⊢
+      have e1 : min g.affine.c (g.affine.c + (g.nx : Rat) * rx) = g.affine.c + (g.nx : Rat) * rx := min_eq_right (by nlinarith)
+      rw [e1] at c1
+      refine le_trans (min_le_right _ _) ?_
+      nlinarith
+    · rw [abs_of_pos hr] at c1 ⊢
+      have e1 : min g.affine.c (g.affine.c + (g.nx : Rat) * rx) = g.affine.c := min_eq_left (by nlinarith)
+      rw [e1] at c1
+      refine le_trans (min_le_left _ _) ?_
+      nlinarith
+  · rcases lt_or_gt_of_ne v.hrx with hr | hr
+    · rw [abs_of_neg hr] at c2 ⊢
+      have e1 : max g.affine.c (g.affine.c + (g.nx : Rat) * rx) = g.affine.c := max_eq_left (by nlinarith)
+      rw [e1] at c2
+      refine le_trans ?_ (le_max_left _ _)
+      nlinarith
+    · rw [abs_of_pos hr] at c2 ⊢
+      have e1 : max g.affine.c (g.affine.c + (g.nx : Rat) * rx) = g.affine.c + (g.nx : Rat) * rx := max_eq_right (by nlinarith)
+      rw [e1] at c2
+      refine le_trans ?_ (le_max_right _ _)
+      nlinarith
+  · rcases lt_or_gt_of_ne v.hry with hr | hr
+    · rw [abs_of_neg hr] at c3 ⊢
+      have e1 : min g.affine.f (g.affine.f + (g.ny : Rat) * ry) = g.affine.f + (g.ny : Rat) * ry := min_eq_right (by nlinarith)
+      rw [e1] at c3
+      refine le_trans (min_le_right _ _) ?_
+      nlinarith
+    · rw [abs_of_pos hr] at c3 ⊢
+      have e1 : min g.affine.f (g.affine.f + (g.ny : Rat) * ry) = g.affine.f := min_eq_left (by nlinarith)
+      rw [e1] at c3
+      refine le_trans (min_le_left _ _) ?_
+      nlinarith
+  · rcases lt_or_gt_of_ne v.hry with hr | hr
+    · rw [abs_of_neg hr] at c4 ⊢
+      have e1 : max g.affine.f (g.affine.f + (g.ny : Rat) * ry) = g.affine.f := max_eq_left (by nlinarith)
+      rw [e1] at c4
+      refine le_trans ?_ (le_max_left _ _)
+      nlinarith
+    · rw [abs_of_pos hr] at c4 ⊢
+      have e1 : max g.affine.f (g.affine.f + (g.ny : Rat) * ry) = g.affine.f + (g.ny : Rat) * ry := max_eq_right (by nlinarith)
+      rw [e1] at c4
+      refine le_trans ?_ (le_max_right _ _)
+      nlinarith
+
 /-! ## non-vacuity -/
 
 example : C02.alignment (toC02 ⟨3, 3, ⟨3, 0, 3 / 2, 0, -3, 15 / 2⟩⟩ 0) = .ok (3 / 2, 3 / 2) := by decide +kernel
